@@ -7,7 +7,15 @@ Streams (see RULE):
   (c) nested `default_tensordot_mode` blocks with raising bodies against `ModeCtx`;
   (d) thread stress against sequential results;
   (e) forced thread schedules (scheduling dictionary) against the Lean thread machine;
-  (f) lru_cache'd pure helpers against their un-memoised functions.
+  (f) lru_cache'd pure helpers against their un-memoised functions;
+  (g) line-level pre-emption exploration: thread A runs fuse / tensordot(fused) / reshape under a
+      trace function restricted to the symmray package and is parked before its k-th line event
+      while thread B runs a complete operation (other key, equal key, twice), for cold and warm
+      histories and cache sizes 1 / default; A's result, B's results and a following sequential
+      B, A, B are compared with the sequential references (value view + index tables).  Quick:
+      every line of cached_fuse_block_info itself plus a strided sample of its callees' and the
+      outer lines; thorough: every line event.  A finding carries (scenario, k, file:line) and is
+      replayable with --replay.
 
 What alarms: a result (array / plan / mode) that differs from the history-free one, or an
 exception that the history-free call does not raise.  What does not: hit/miss counts (finding
@@ -73,7 +81,9 @@ RULE = (
     "by conj from already-hashed ones); every ordering of <= 4 cached "
     "calls over a family under SYMMRAY_FUSE_CACHE_MAXSIZE in {0,1,2,8192} (subprocesses); random "
     "mixed fuse/tensordot(fused)/reshape/unfuse(all levels) histories; forced schedules of 2-4 threads over "
-    "the five atomic dict operations; thread stress; random nested mode-context programs. "
+    "the five atomic dict operations; single pre-emptions of one thread before each line event of a "
+    "cached public operation while another thread runs a whole operation; thread stress; random "
+    "nested mode-context programs. "
     "Non-trivial: a history with at least one hit, one eviction or one key pair differing in a "
     "single attribute; a schedule in which two threads are inside the call at the same time; "
     "a mode program in which a body raises inside a with-block."
@@ -683,6 +693,227 @@ def check_helpers(rng, rounds):
     return n, bad
 
 
+# =============================================================================== (g) line-level pre-emption
+
+
+def _pkgdir():
+    import symmray
+
+    return os.path.dirname(os.path.abspath(symmray.__file__)) + os.sep
+
+
+def _pre_call(members, spec):
+    """one public operation: array of member `arr`, axes groups of member `groups_of`"""
+    x, xc, _ = members[spec["arr"]]
+    return run_op(x, xc, members[spec["groups_of"]][2], spec["op"])
+
+
+def _trace_lines(fn, pkg):
+    """the line events of `fn()` inside the symmray package:
+    (file, line, function, inside cached_fuse_block_info or a callee, in its own frame)"""
+    lines = []
+
+    def tracer(frame, event, arg):
+        code = frame.f_code
+        if not code.co_filename.startswith(pkg):
+            return None
+        if event == "line":
+            own = code.co_name == "cached_fuse_block_info"
+            inside = own
+            f = frame.f_back
+            while f is not None and not inside:
+                inside = f.f_code.co_name == "cached_fuse_block_info"
+                f = f.f_back
+            lines.append((os.path.basename(code.co_filename), frame.f_lineno, code.co_name, inside, own))
+        return tracer
+
+    sys.settrace(tracer)
+    try:
+        fn()
+    finally:
+        sys.settrace(None)
+    return lines
+
+
+def _preempt_trial(run_a, run_b, k, b_times, pkg, timeout=30.0):
+    """thread A runs `run_a` under a line tracer and is parked once, before its k-th line event
+    inside symmray; thread B then runs `run_b` completely (`b_times` times); A goes on."""
+    out = {}
+    parked = threading.Event()
+    resume = threading.Event()
+
+    def thread_a():
+        cnt = [0]
+
+        def tracer(frame, event, arg):
+            code = frame.f_code
+            if not code.co_filename.startswith(pkg):
+                return None
+            if event == "line":
+                if cnt[0] == k:
+                    out["at"] = f"{os.path.basename(code.co_filename)}:{frame.f_lineno} {code.co_name}"
+                    parked.set()
+                    resume.wait(timeout)
+                cnt[0] += 1
+            return tracer
+
+        sys.settrace(tracer)
+        try:
+            out["A"] = run_a()
+        except BaseException as e:  # noqa
+            out["A"] = f"raise:other:{type(e).__name__}"
+        finally:
+            sys.settrace(None)
+            out["nlines"] = cnt[0]
+            parked.set()
+
+    def thread_b():
+        parked.wait(timeout)
+        try:
+            out["B"] = [run_b() for _ in range(b_times)]
+        except BaseException as e:  # noqa
+            out["B"] = [f"raise:other:{type(e).__name__}"]
+        finally:
+            resume.set()
+
+    ta = threading.Thread(target=thread_a, daemon=True)
+    tb = threading.Thread(target=thread_b, daemon=True)
+    ta.start()
+    tb.start()
+    ta.join(2 * timeout)
+    tb.join(2 * timeout)
+    if ta.is_alive() or tb.is_alive():
+        raise RuntimeError("pre-emption trial did not terminate")
+    return out
+
+
+def preempt_explore(ac, members, cfg):
+    """(g) for every scenario = (operation A, operation B, sequential history before, how often B):
+    park A before each selected line event in turn while B runs completely; afterwards A's result,
+    B's results and a sequential B, A, B must all equal the sequential references."""
+    if not cfg:
+        return dict(trials=0, findings=[], scenarios=0, lines=0)
+    pkg = _pkgdir()
+    used = {sp["arr"] for sc in cfg["scenarios"] for sp in (sc["A"], sc["B"])}
+    neutral = cfg.get("neutral")
+    if neutral is None:
+        neutral = next((i for i in range(len(members) - 1, -1, -1) if i not in used), 0)
+    ref = {}
+
+    def call(spec):
+        return _pre_call(members, spec)
+
+    def key(spec):
+        return (spec["arr"], spec["groups_of"], spec["op"])
+
+    def prepare(sc):
+        # a fixed state: an unrelated call, empty cache, then the sequential history
+        x, xc, g = members[neutral]
+        run_op(x, xc, g, "fuse")
+        ac._fuseinfos.clear()
+        for h in sc["history"]:
+            call(sc[h])
+
+    for sc in cfg["scenarios"]:
+        for sp in (sc["A"], sc["B"]):
+            if key(sp) not in ref:
+                ac._fuseinfos.clear()
+                ref[key(sp)] = call(sp)
+    findings = []
+    trials = 0
+    nlines_total = 0
+    nscen = 0
+    t0 = time.time()
+    explicit = cfg.get("explicit")
+    for si, sc in enumerate(cfg["scenarios"]):
+        wa, wb = ref[key(sc["A"])], ref[key(sc["B"])]
+        if "n/a" in (wa, wb):
+            continue
+        nscen += 1
+        if explicit is not None:
+            ks = [k for s2, k in explicit if s2 == si]
+        else:
+            prepare(sc)
+            _trace_lines(lambda: call(sc["A"]), pkg)  # warms whatever is memoised per process
+            prepare(sc)
+            lines = _trace_lines(lambda: call(sc["A"]), pkg)
+            nlines_total += len(lines)
+            if cfg.get("all_lines"):
+                ks = list(range(len(lines)))
+            else:
+                own = [k for k, ln in enumerate(lines) if ln[4]]
+                callee = [k for k, ln in enumerate(lines) if ln[3] and not ln[4]]
+                outside = [k for k, ln in enumerate(lines) if not ln[3]]
+
+                def strided(v, n):
+                    if len(v) <= n:
+                        return v
+                    return [v[(j * len(v)) // n] for j in range(n)]
+
+                ks = sorted(set(own + strided(callee, sc.get("callee_cap", cfg["callee_cap"]))
+                                + strided(outside, cfg["outside_cap"])))
+        for k in ks:
+            if cfg.get("budget_s") and time.time() - t0 > cfg["budget_s"]:
+                break
+            prepare(sc)
+            out = _preempt_trial(lambda: call(sc["A"]), lambda: call(sc["B"]), k, sc["b_times"], pkg)
+            trials += 1
+            bad = []
+            if out.get("A") != wa:
+                bad.append(("threaded A", wa, out.get("A")))
+            for n, gb in enumerate(out.get("B", [])):
+                if gb != wb:
+                    bad.append((f"threaded B#{n}", wb, gb))
+            for n, h in enumerate(("B", "A", "B")):
+                got = call(sc[h])
+                want = wb if h == "B" else wa
+                if got != want:
+                    bad.append((f"later sequential {h}#{n}", want, got))
+            if bad and len(findings) < 8:
+                findings.append(dict(scenario=sc, scenario_index=si, k=k, at=out.get("at", "(not reached)"),
+                                     mismatches=[dict(which=w, want=a, got=b) for w, a, b in bad]))
+    ac._fuseinfos.clear()
+    return dict(trials=trials, findings=findings, scenarios=nscen, lines=nlines_total)
+
+
+def make_preempt(fam, tier):
+    """scenarios over one family (indices into it)"""
+    tags = [d["tag"] for d in fam]
+
+    def first(prefix):
+        return next((i for i, t in enumerate(tags) if t.startswith(prefix)), None)
+
+    gv, dv, sv, mv = first("groups"), first("dual@"), first("size@"), first("missing#")
+    sc = []
+
+    def add(name, a, b, histories, b_times=1, callee_cap=None):
+        if None in (a[0], a[1], b[0], b[1]):
+            return
+        for h in histories:
+            d = dict(name=name, A=dict(arr=a[0], groups_of=a[1], op=a[2]), B=dict(arr=b[0], groups_of=b[1], op=b[2]),
+                     history=h, b_times=b_times)
+            if callee_cap:
+                d["callee_cap"] = callee_cap
+            sc.append(d)
+
+    both = [[], ["B", "A"], ["A", "B"]]
+    add("fuse: one shared array, two groupings", (0, 0, "fuse"), (0, gv, "fuse"), both)
+    add("fuse: one shared array, two groupings, B twice", (0, 0, "fuse"), (0, gv, "fuse"), [["B", "A"], ["A", "B"]], 2)
+    add("fuse: equal key, two objects", (0, 0, "fuse"), (1, 1, "fuse"), [[], ["A"]], 1, 60)
+    add("fuse: the same array and grouping in both threads", (0, 0, "fuse"), (0, 0, "fuse"), [[]], 1, 60)
+    add("fuse: other block size, same grouping and directions", (0, 0, "fuse"), (sv, sv, "fuse"), both, 1, 60)
+    add("fuse: other dualness", (0, 0, "fuse"), (dv, dv, "fuse"), [[], ["B", "A"]])
+    add("tensordot(fused): one sector missing", (0, 0, "tdot"), (mv, mv, "tdot"), [[], ["A", "B"]])
+    add("reshape: other dualness", (0, 0, "reshape"), (dv, dv, "reshape"), [[], ["A", "B"]])
+    add("fuse against tensordot(fused) of the same array", (0, 0, "fuse"), (0, 0, "tdot"), [[], ["B", "A"]])
+    # the call made before every schedule (fixes whatever "last call" state there may be): a member
+    # whose key differs from those of all scenario members
+    neutral = next((i for pre in ("sym", "order", "label@") for i in [first(pre)] if i is not None), None)
+    if tier == "thorough":
+        return dict(scenarios=sc, neutral=neutral, all_lines=True, callee_cap=10**9, outside_cap=10**9, budget_s=400)
+    return dict(scenarios=sc, neutral=neutral, all_lines=False, callee_cap=24, outside_cap=6, budget_s=25)
+
+
 def worker_main():
     jobpath, outpath = sys.argv[sys.argv.index("--worker") + 1: sys.argv.index("--worker") + 3]
     with open(jobpath) as fh:
@@ -804,6 +1035,11 @@ def _worker(job):
             sched_out.append(replay_schedule(ac, members, key2id, sch))
     res["schedules"] = sched_out
     T["sched"] = time.time()
+
+    # -- line-level pre-emption exploration
+    res["preempt"] = preempt_explore(ac, members, job.get("preempt")) if ac._fuseinfo_cache_maxsize != 0 else \
+        dict(trials=0, findings=[], scenarios=0, lines=0)
+    T["preempt"] = time.time()
 
     # -- thread stress
     res["stress"] = stress(ac, members, job["stress"], seen)
@@ -1255,6 +1491,7 @@ def _run(ctx):
                 stress=dict(threads=[2, 3, 4, 8] if tier == "quick" else [2, 3, 4, 5, 6, 7, 8, 8, 3, 3],
                             per_thread=40 if tier == "quick" else 200, seed=rng.randrange(10**9)),
                 helper_rounds=2, plan_seqs=150,
+                preempt=make_preempt(fam, tier) if (m in (1, 8192) and (tier == "thorough" or f < 2)) else None,
             )
             jobs.append((f, m, job))
     procs = []
@@ -1292,6 +1529,26 @@ def _run(ctx):
         for k, v in r.get("timing", {}).items():
             tm[k] = max(tm.get(k, 0), v)
     ctx.notes.append(f"slowest worker phase times (s): {tm}")
+    # (g) first: its findings carry a deterministic schedule
+    jobmap_p = {(f, m): job.get("preempt") for f, m, job in jobs}
+    for (f, m), r in sorted(results.items()):
+        pr = r.get("preempt") or dict(trials=0, findings=[], scenarios=0, lines=0)
+        ctx.evaluations += pr["trials"]
+        ctx.stat("g.preempt_schedules", pr["trials"])
+        ctx.stat("g.preempt_scenarios", pr["scenarios"])
+        if pr["trials"]:
+            ctx.mark_nontrivial(("preempt", f, m, pr["trials"]))
+        for fd in pr["findings"]:
+            mm = fd["mismatches"][0]
+            sc = fd["scenario"]
+            ctx.violation(
+                f"pre-emption at line event {fd['k']} ({fd['at']}) of {sc['A']['op']} while another thread runs "
+                f"{sc['B']['op']} [{sc['name']}; history {sc['history']}; cache size {m}]: {mm['which']} is "
+                f"{mm['got']} instead of {mm['want']}",
+                dict(preempt=dict(scenario=sc, k=fd["k"], at=fd["at"], mismatches=fd["mismatches"],
+                                  neutral=(jobmap_p.get((f, m)) or {}).get("neutral")),
+                     maxsize=m, family=families[f]),
+                triggers={"threads", "preemption"}, op=sc["A"]["op"])
     for (f, m), r in sorted(results.items()):
         for fd in r["stress"]["findings"]:
             trig = {"threads"}
@@ -1563,6 +1820,18 @@ def replay(ctx, payload):
         bad = plan_digest(ac.cached_fuse_block_info(xb, gb)) != plan_digest(ac.calc_fuse_block_info(xb, gb))
         print("cached plan differs from its own plan:", bad)
         return 1 if bad else 0
+    if "preempt" in case:
+        pc = case["preempt"]
+        job = dict(family=case["family"], seqs=[], mixed=[], maxsize=case["maxsize"], seed=0, schedules=[],
+                   stress=dict(threads=[], per_thread=0, seed=0), helper_rounds=0,
+                   preempt=dict(scenarios=[pc["scenario"]], explicit=[[0, pc["k"]]], neutral=pc.get("neutral"),
+                                callee_cap=0, outside_cap=0))
+        try:
+            r = _collect(_launch(job, case["maxsize"], "replay"), 120)
+        finally:
+            _cleanup_tmp()
+        print("observed", json.dumps(r["preempt"])[:2000])
+        return 1 if r["preempt"]["findings"] else 0
     if "schedule" in case:
         job = dict(family=case["family"], seqs=[], mixed=[], maxsize=case["maxsize"], seed=0,
                    schedules=[case["schedule"]], stress=dict(threads=[], per_thread=0, seed=0), helper_rounds=0)
